@@ -50,7 +50,7 @@ func scenarios(thorough bool) []e3drive.Scenario {
 
 func main() {
 	r := harness.Start("C12", "model_checking")
-	scs := scenarios(r.Thorough())
+	scs := scenarios(r.Thorough() || r.Replay != "") // replay: every scenario of either tier
 	if r.Replay != "" {
 		// race findings are replayed by re-sampling free runs
 		var f struct {
